@@ -1,4 +1,5 @@
 import TracklibVerif.Model.Filter
+import TracklibVerif.Model.FilterExt
 import TracklibVerif.Drv.Util
 /-! Driver handler for C15 (kernel smoothing). `<sc>` is the scalar: `r` (Rat, tokens `p/q`) or
 `f` (Float, IEEE bit patterns); NaN is `nan` in signals.
@@ -44,7 +45,10 @@ Commands:
                                            `filter_seq` called n times on the same track with the same kernel object
                                            → the replies of `seq` after every call, separated by ` # ` (stops at a failure)
   session <sc> <n> { <dim> <names> <signals ;> <m> <kspec of m tokens> }*n
-                                           → n replies of `seq` separated by ` # ` -/
+                                           → n replies of `seq` separated by ` # `
+  execx r <signal> <kspec>                 `Filter.execute` over Python's numbers (`Model/FilterExt.lean`, scalar `Ext Rat`): the signal and
+                                           the weights of a `list` may hold `nan`, `inf`, `-inf`; any total of the weights
+                                           → ok <weight list after the call | none> <output signal> | err:<kind> -/
 namespace TV.Drv.C15
 open TV.Filter TV.Drv
 
@@ -289,7 +293,40 @@ def handleSc (sc : Sc α) (cmd : String) (args : List String) : String :=
   | _, _ => "bad-request"
 end
 
+def ext? (s : String) : Option (Ext Rat) :=
+  if s == "nan" then some .nan else if s == "inf" then some .pinf else if s == "-inf" then some .ninf else (rat? s).map .fin
+
+def showExt : Ext Rat → String
+  | .fin a => showRat a
+  | .pinf => "inf"
+  | .ninf => "-inf"
+  | .nan => "nan"
+
+def handleX (args : List String) : String :=
+  match args with
+  | sig :: "list" :: [ws] =>
+    match (splitTok sig ',').mapM ext?, (splitTok ws ',').mapM ext? with
+    | some v, some k =>
+      match executeListX v k with
+      | .ok (k', out) => s!"ok {showList showExt k'} {showList showExt out}"
+      | .error e => showErr e
+    | _, _ => "bad-request"
+  | sig :: ks =>
+    match (splitTok sig ',').mapM ext?, kspec? scRat ks with
+    | some v, some (KArg.obj dirac b f sup S) =>
+      match prepare (KArg.obj dirac b f sup S) with
+      | .ok (_, w, boundary, _) =>
+        match executeObjX v w boundary with
+        | .ok out => s!"ok none {showList showExt out}"
+        | .error e => showErr e
+      | .error e => showErr e
+    | _, _ => "bad-request"
+  | _ => "bad-request"
+
 def handle (cmd : String) (args : List String) : String :=
+  match cmd, args with
+  | "execx", "r" :: rest => handleX rest
+  | _, _ =>
   match args with
   | "r" :: rest => handleSc scRat cmd rest
   | "f" :: rest => handleSc scFloat cmd rest
